@@ -259,9 +259,10 @@ func c17Vals(fam, op, form string, n int) (a, b []int64, s int64) {
 }
 
 func c17Elementwise(c *core.Ctx, fam, op string) {
-	shapes := [][]int{{2, 3}}
+	// (a single element takes the kernels' own scalar arms, generated per element type like the rest)
+	shapes := [][]int{{2, 3}, {1}}
 	if c.Tier == "thorough" {
-		shapes = [][]int{{6}, {2, 3}, {3, 1, 2}}
+		shapes = [][]int{{6}, {2, 3}, {3, 1, 2}, {1}, {1, 1}}
 	}
 	forms := []string{"TT", "TS", "ST"}
 	var modes []string
